@@ -528,7 +528,7 @@ def cvsFinish (xsz : Nat) (st : CvsState) : Except Err (Nat × Nat × Nat × Lis
   match cvsRec st with
   | .error e => .error e
   | .ok (beginRec, recsize) =>
-    let beginVar := match st.firstVar with | some b => b | none => beginRec
+    let beginVar := st.firstVar.getD beginRec      -- first_var != NULL ? first_var->begin : begin_rec
     if beginVar ≤ 0 ∨ xsz > beginVar ∨ beginRec ≤ 0 ∨ beginVar > beginRec then .error .enotnc
     else .ok (beginVar, beginRec, recsize, st.shapes, st.lens)
 
